@@ -49,6 +49,10 @@ def _inline(p):
     vec = p.cls(f"{IV}.Vector")
 
     def pol(fi, node):
+        # the driver package handles a message with whatever helpers and polymorphic hooks it likes: everything in it is
+        # part of the handling, except user handlers (raise_event) and publication (send_message, to_*_message)
+        if fi.module.name.startswith("indi.device.") and fi.name not in ("raise_event", "send_message", "to_set_message", "to_def_message", "attach_event_handlers") and fi.module.name != "indi.device.values":
+            return True
         if fi.module.name == IE and fi.name in ("set_value_from_message", "set_value", "value", "check_value", "check_value_type", "name", "device", "vector"):
             return True
         if fi.module.name == IV and fi.name in ("from_new_message", "apply_rule", "name", "device"):
@@ -152,17 +156,18 @@ def rule_escape(ctx):
 
 def rule_inloop(ctx):
     p = ctx.p
-    loops = [(fi, wh) for fi, wh in receive_loops(p) if fi.module.name.startswith("indi.transport.server")]
+    loops = [L for L in receive_loops(p) if (L.owner.module if L.owner is not None else L[0].module).name.startswith("indi.transport.server")]
     ctx.floor("C12.INLOOP", "server receive loops", len(loops), 2)
-    for fi, wh in loops:
-        ci = fi.cls
+    for L in loops:
+        fi, wh = L
+        ci = L.owner
         # the consumer handed to buffer.process
         consumer = None
         for n_ in ast.walk(wh):
             if isinstance(n_, ast.Call) and isinstance(n_.func, ast.Attribute) and n_.func.attr == "process" and n_.args and isinstance(n_.args[0], ast.Attribute) and isinstance(n_.args[0].value, ast.Name) and n_.args[0].value.id == "self":
-                consumer = ci.find_method(n_.args[0].attr)
+                consumer = ci.find_method(n_.args[0].attr) if ci is not None else None
         if consumer is None:
-            ctx.undecided("C12.INLOOP", fi.short, "consumer passed to buffer.process not resolved", fi=fi)
+            ctx.undecided("C12.INLOOP", L.short, "consumer passed to buffer.process not resolved", fi=fi)
             continue
 
         def raiser(ev):
@@ -170,7 +175,8 @@ def rule_inloop(ctx):
                 return "Exception"
             return None
 
-        paths = run_method(p, consumer, opts={"call_may_raise": raiser})
+        # an override that extends its base (super().<same method>(...)) is one entry
+        paths = run_method(p, consumer, self_val=L.self_val, opts={"call_may_raise": raiser, "inline": lambda fi_, node, _n=consumer.name: fi_.name == _n})
         ctx.paths_enumerated += len(paths)
         routed = any(pa.calls(method="process_message") for pa in paths)
         esc = [pa for pa in paths if pa.outcome == "raise"]
@@ -178,7 +184,7 @@ def rule_inloop(ctx):
             ctx.violated("C12.INLOOP", consumer.short, "the per-message entry does not hand the message to the router", fi=consumer, text="not-routed")
             continue
         if esc:
-            ctx.violated("C12.INLOOP", consumer.short, "whatever Router.process_message raises escapes the per-message entry; the only handler left is the catch-all around the whole receive loop, which closes the connection", fi=consumer, text="no-per-message-containment", witness=f"{fi.short}: try around the loop -> close()")
+            ctx.violated("C12.INLOOP", consumer.short, "whatever Router.process_message raises escapes the per-message entry; the only handler left is the catch-all around the whole receive loop, which closes the connection", fi=consumer, text="no-per-message-containment", witness=f"{L.short}: try around the loop -> close()")
         else:
             # the message and the sender are passed on unchanged
             ok = True
